@@ -426,7 +426,7 @@ func RaceBody(reps int) {
 				}(i, ops)
 			}
 			close(start)
-			wg.Wait()
+			engine.WaitOrBlocked(&wg, sc.Name, runs)
 			// the invariants are judged on the free-running executions too (a sample, not an enumeration)
 			for _, v := range r.judge(sc) {
 				if !strings.HasPrefix(v[0], "malformed-request") {
